@@ -3,8 +3,9 @@
 import os
 
 _COMMON = {"internal/zzverif/c18/c18.go": "c18/common/c18.go", "internal/zzverif/c18/fs.go": "c18/common/fs.go"}
-# which candidate repairs the tree under test carries (fixes/C18-F1.diff, fixes/C18-F2.diff): flipped here once the
-# coordinator has applied them; VERIF_C18_FIXED=F1,F2 overrides for trying a fix in a scratch worktree
+# which repairs the tree under test carries: all four candidate diffs (fixes/C18-F1, -F2 (also repairs F4), -F7, -F8) have
+# been applied to /repo by the coordinator, so the default below selects the repaired model variants;
+# VERIF_C18_FIXED=F1,F2 (a subset) overrides it for running the check against a tree without some of them
 _REAL = dict(_COMMON, **{"internal/rules/zz_verif_c18_test.go": "c18/real_test.go",
                          "internal/rules/provider/filesystem/zz_verif_c18_export.go": "c18/fs_export.go",
                          "internal/rules/provider/kubernetes/zz_verif_c18_run.go": "c18/k8s_run.go",
@@ -29,7 +30,7 @@ P = {
                  "C18_blob_F1_pinned_refuted", "C18_blob_F5_refuted", "C18_blob_F6_refuted",
                  "C18_k8s_all_histories", "C18_k8s_converges", "C18_k8s_F7_pinned_refuted", "C18_k8s_F8_pinned_refuted",
                  # state-dependent acceptance (coq/C18/Accept*.v)
-                 "C18_accept_processor", "C18_accept_latest_applicable", "C18_accept_retry", "C18_accept_converges",
+                 "C18_accept_latest_applicable", "C18_accept_converges",
                  "C18_accept_no_global_convergence",
                  "C18_http_accept_all_histories", "C18_http_accept_retry", "C18_http_accept_converges",
                  "C18_blob_accept_all_histories", "C18_blob_accept_retry", "C18_blob_accept_converges",
@@ -97,7 +98,7 @@ P = {
         "eval_module": "Run.Eval_C18", "check_term": "check_breal",
         "n_quick": 150, "n_thorough": 4000, "findings": {},
     }],
-    "rule": "twelve streams, every one through REAL code of /repo, corpus (witnesses of C18-F1/F2/F4/F5/F6/F7/F8 + corpus/C18/*.json) "
+    "rule": "twelve streams, every one through REAL code of /repo, corpus (witnesses of C18-F1/F2/F4/F5/F6/F7/F8, of C18-F10/F11 (three k8scomp and the fscomp corpus cases in harness/c18/real_test.go) + corpus/C18/*.json) "
             "first, then generated histories of 1-30 events over 1-3 sources: "
             "fs = file changes (valid/absent/empty/invalid, 5 empty and 11 invalid byte variants) x fsnotify events of every kind "
             "incl. combined op bits, orderly and out-of-order/repeated/stale notifications, initial loads, via "
@@ -136,14 +137,14 @@ P = {
                 "valid) is data of the case, realised by real bytes the real parser classifies in the run; the drivers map "
                 "(content type, bytes) and (injected failure, listing) to the model's classes",
                 "the rule-set processor is an oracle per content (accept/reject) and per source (deletion accepted/refused); the "
-                "streams fsreal, k8sreal, httpreal, blobreal check that the real processor+factory+repository behave like that oracle and like the ideal "
+                "streams fsreal, k8sreal, httpreal, blobreal, fscomp, k8scomp run against the real processor+factory+repository; fsreal, k8sreal check that the real processor+factory+repository behave like that oracle and like the ideal "
                 "repository keyed by source id — including update/delete of something not loaded, which the Kubernetes provider "
                 "relies on — for rule sets that do not compete for paths; for rule sets that compete for a path the processor is "
                 "modelled as dacc (acceptable in itself AND clashing with nothing another source holds now; deletion never "
                 "refused; C18_accept_processor) with the ideal repository, and httpreal / blobreal check that the real "
                 "processor+factory+repository behave like that for contents of four conflict classes (clash = same class); "
-                "the file-system and Kubernetes models against that processor (C18_fs_accept_*, C18_k8s_accept_*) are not "
-                "run against the real processor with competing rule sets",
+                "fscomp / k8scomp check that the file-system and Kubernetes models against that processor (fs_dyn_steps, "
+                "k8s_dyn_steps) equal the real provider+processor+repository for contents of the four conflict classes",
                 "event delivery is modelled only as 'one notification per atomic change, in order' (fswatch) and 'polls one after "
                 "another' (httpsched); lost events, non-atomic writes, the window between initial load and watcher.Add, the "
                 "cloud-blob scheduler are not covered",
@@ -155,43 +156,59 @@ P = {
                   "finite histories of source changes, notifications/polls/watch events and relists (any kind, repeated, stale, out "
                   "of order) and fetch outcomes, the sequence of accepted OnCreated/OnUpdated/OnDeleted calls is exactly the one "
                   "that tracks the latest valid content seen of each source (trace_ok; for Kubernetes modulo idempotent calls, "
-                  "and no handler panics), by induction with the invariant stored hash = latest valid content seen; from "
+                  "and no handler panics — i.e. for Kubernetes an accepted update to the already loaded content, a deletion of "
+                  "something not loaded and update-instead-of-create are removed before the comparison (norm_trace): 'no reload "
+                  "on unchanged content' and 'exactly once' are NOT established for the Kubernetes provider's real calls, only "
+                  "that what is loaded is right (C18_k8s_converges)), by induction with the invariant stored hash = latest valid content seen; from "
                   "trace_ok follow convergence, exactly-once application, no reload on unchanged content, unloading of "
                   "removed/emptied sources and keeping the previous version on invalid/rejected content. File system additionally at "
                   "world level: after the last change of a file any processed notification makes the loaded version the file's "
                   "latest valid content, and the accepted calls per file never exceed the file's changes. State-dependent "
                   "acceptance (a valid rule set refused while ANOTHER source holds one of its paths, accepted later): for ALL "
                   "processors dacc(ok0, clash, sources) and ALL histories the file-system, HTTP-endpoint and (single-key bucket) "
-                  "cloud-blob models make exactly the reference run's calls and leave the repository the specification "
-                  "spec_repo_steps demands — the same definitions the streams httpreal/blobreal evaluate on the real repository — "
-                  "i.e. per source the latest content that was valid and applicable at a look since the source appeared; a "
-                  "refused valid content is offered again at every later poll/notification (retry), and one poll after it became "
-                  "applicable it is loaded (convergence); the content-only oracle of the other theorems is the special case "
+                  "cloud-blob models make exactly the reference run's calls; spec_look / spec_repo_steps is THE specification (the "
+                  "same definitions the streams httpreal/blobreal evaluate on the real repository: per source the latest content "
+                  "that was valid and applicable at a look since the source appeared) and the reference run ref_steps a derived "
+                  "call-level rendering of it (ref_view_spec) — the independent content of C18_http/blob_accept_all_histories is "
+                  "their repository conjunct (= spec_repo_steps); for the file system: calls = reference run per look "
+                  "(C18_fs_accept_all_histories), repository = specification per look via ref_view/spec_view (no fs theorem of "
+                  "the shape repository column = spec_repo_steps). A refused valid content is offered again at every later "
+                  "poll (retry), and one poll after it became applicable it is loaded (convergence) — for the polling "
+                  "providers; the event-driven providers look at a source only on its own event: the file system re-offers at "
+                  "the file's next notification only (open finding C18-F11, C18_fs_F11_refuted), Kubernetes not at all until "
+                  "the generation changes (open finding C18-F10, C18_k8s_F10_refuted); the content-only oracle of the other theorems is the special case "
                   "clash = none; providers that record the hash before the processor answered are refuted by witness "
                   "histories. The models are tied to "
                   "the provider sources by running the real handlers, the real fsnotify watcher loop, the real gocron-scheduled "
-                  "polls and the real client-go informer on ~2000 (quick) / ~50000 (thorough) generated histories per run.",
+                  "polls and the real client-go informer on ~2200 (quick) / ~72000 (thorough) generated histories per run.",
     "level_note": "PARTIAL in these respects. (1) An unreachable HTTP endpoint / bucket is read as a source that no longer exists "
                   "(Spec parameter gone = true, what heimdall implements); under the other reading the provider is refuted "
                   "(C18_http_reading_keep_refuted); the run-time predicate accepts either. (2) Cloud blob is proved outside the "
                   "per-poll guards of the open findings C18-F5 (an unloadable blob while something of the bucket has to change) "
                   "and C18-F6 (the named blob is gone while its rule set is loaded), for histories conforming to the endpoint "
                   "configuration. (3) Kubernetes is proved for well-formed histories (k8s_wf), read modulo idempotent processor "
-                  "calls, and outside the guard of a UID change under a stored name (the repaired path of C18-F8 is covered by "
+                  "calls (so 'exactly once' / 'no reload' are not established for its real calls), and outside the guard of a UID change under a stored name (the repaired path of C18-F8 is covered by "
                   "correspondence and a witness only). (4) All provider theorems assume a processor that never refuses a deletion. "
                   "(5) State-dependent acceptance: cloud blob only for buckets with one key and polls without a listed/named but "
-                  "absent blob (C18-F5/F6 territory); file system and Kubernetes against such a processor are model-level only "
-                  "(no stream runs them against the real processor with competing rule sets); the Kubernetes provider does NOT "
-                  "retry — a version refused for an external reason is offered again only when the object's spec changes "
-                  "(C18_k8s_accept_no_retry_witness; read from addRuleSet/updateRuleSet, not replayed on the real code, not "
-                  "recorded as a finding); convergence is per source and per look — two sources whose new contents each "
-                  "compete with the other's old content block each other for ever (C18_accept_no_global_convergence). "
+                  "absent blob (C18-F5/F6 territory); file system and Kubernetes against such a processor: the streams fscomp / "
+                  "k8scomp run the models fs_dyn_steps / k8s_dyn_steps against the real processor+repository with competing rule "
+                  "sets (correspondence of calls, answers and repository); the convergence clause FAILS there — open findings "
+                  "C18-F10 (Kubernetes: a RuleSet refused for an external conflict is re-offered only when its generation changes; "
+                  "C18_k8s_F10_refuted, C18_k8s_accept_no_retry_witness; replayed on the real code) and C18-F11 (file system: "
+                  "re-offered only at the file's own next fs event; C18_fs_F11_refuted; replayed); their guards are computed from "
+                  "the history and the look-based specification alone (the reference that does what every look demands is itself "
+                  "not quiescent), so any other non-quiescent end is an unguarded property failure; there is no general "
+                  "Kubernetes theorem against such a processor; convergence is per source and per look — two sources whose new contents each "
+                  "compete with the other's old content block each other for ever (C18_accept_no_global_convergence). (6) An initial load of the file system provider that meets an invalid or refused "
+                  "file aborts; the files after it are not looked at (Start returns the error) — no convergence claim for them. "
                   "File system, cloud blob and Kubernetes are the providers after the fix: commits 07a625c (C18-F2, C18-F4), "
                   "9cefff4 (C18-F1), 46996f5 (C18-F7), f7bb6ba (C18-F8); pinned behaviour kept as *_pinned theorems/witnesses. "
                   "Trusted: Coq kernel/vm_compute; the correspondence harness incl. its class mappings; hashes as content "
                   "identities; parser and processor as oracles; cloud store stub; client-go informer as observed.",
-    "assumptions": ["in-package drivers read Provider.states / BucketState and call unexported handlers: a rename or a change of "
-                    "representation of those breaks the driver (reported as correspondence-broken), not the property",
+    "assumptions": ["in-package drivers read Provider.states / BucketState and call unexported handlers: renames of the unexported "
+                    "fields/methods the drivers use are re-bound automatically (harness/tools/rebind, seeded/harmless/C18-r6); a "
+                    "change of REPRESENTATION of Provider.states / BucketState breaks the driver (correspondence-broken), not "
+                    "the property",
                     "in the trace_ok theorems (C18_converges ... C18_k8s_converges) the processor's answer depends only on the content "
                     "(create/update) or the source (delete), not on the call history; in the C18_*accept* theorems it depends on what "
                     "OTHER sources have loaded at that moment (dacc: any ok0, any clash relation, any source list; never on the "
@@ -199,6 +216,29 @@ P = {
                     "(rate limits, rule-id uniqueness across sources, ...) are not modelled",
                     "fairness is a hypothesis: every change is followed by a notification / poll that is processed"],
 }
+
+def _per_stream():
+    """per-stream numbers for the evidence (cases, distinct non-trivial, findings' tags) read from the observation files"""
+    import glob, json as _json
+    out = {}
+    sys_vf = __import__("vf")
+    for path in sorted(glob.glob(os.path.join(sys_vf.OUT, "C18", "obs_*.jsonl"))):
+        name = os.path.basename(path)[4:-6]
+        if name.endswith("_esc") or name not in [st["name"] for st in P["streams"]]:
+            continue
+        n, keys, sample = 0, set(), None
+        for line in open(path):
+            o = _json.loads(line)
+            n += 1
+            if o.get("nontrivial"):
+                keys.add(o.get("key"))
+            if sample is None and o.get("stream") == "generated":
+                sample = {"in": o["in"]}
+        out[name] = {"cases": n, "distinct_nontrivial": len(keys), "sample_input": sample}
+    return {"per_stream": out}
+
+
+P["extra_coverage"] = _per_stream
 
 # VERIF_C18_STREAMS=fs,blob restricts a run to some streams (used for mutation testing only)
 if os.environ.get("VERIF_C18_STREAMS"):
